@@ -40,6 +40,7 @@ type World struct {
 	globalFacts map[*types.Var]globalFact
 	structCache map[string]string
 	globalConsts map[*types.Var]globalFact
+	firedTags map[*ssa.Function]map[string]bool
 }
 
 type Trace struct {
@@ -590,9 +591,16 @@ func (w *World) addTrace(t *Trace) {
 				if it, ok := tn.Type().Underlying().(*types.Interface); ok {
 					for j := 0; j < it.NumMethods(); j++ {
 						if it.Method(j).Name() == t.Key[i+1:] {
-							r := it.Method(j).Type().(*types.Signature).Results()
+							msig := it.Method(j).Type().(*types.Signature)
+							r := msig.Results()
 							if r.Len() > 0 {
 								retT = r.At(0).Type()
+							}
+							if msig.Params().Len() > 0 {
+								argT = msig.Params().At(0).Type()
+							}
+							if msig.Params().Len() > 1 {
+								arg2T = msig.Params().At(1).Type()
 							}
 						}
 					}
@@ -861,4 +869,68 @@ func (w *World) externSig(key string) *types.Signature {
 		}
 	}
 	return nil
+}
+
+// tagsFiredBy: the trace tags whose traced calls may happen inside fn (transitively through the
+// module functions and closures it calls statically).
+func (w *World) tagsFiredBy(fn *ssa.Function) map[string]bool {
+	if w.firedTags == nil {
+		w.firedTags = map[*ssa.Function]map[string]bool{}
+	}
+	if t, ok := w.firedTags[fn]; ok {
+		return t
+	}
+	out := map[string]bool{}
+	w.firedTags[fn] = out // recursion guard (a cycle contributes what it has so far)
+	if fn == nil || fn.Blocks == nil {
+		return out
+	}
+	var visit func(f *ssa.Function, seen map[*ssa.Function]bool)
+	visit = func(f *ssa.Function, seen map[*ssa.Function]bool) {
+		if f == nil || f.Blocks == nil || seen[f] {
+			return
+		}
+		seen[f] = true
+		for _, b := range f.Blocks {
+			for _, in := range b.Instrs {
+				var c *ssa.CallCommon
+				switch x := in.(type) {
+				case *ssa.Call:
+					c = &x.Call
+				case *ssa.Defer:
+					c = &x.Call
+				case *ssa.Go:
+					c = &x.Call
+				case *ssa.MakeClosure:
+					if cf, ok := x.Fn.(*ssa.Function); ok {
+						visit(cf, seen)
+					}
+					continue
+				default:
+					continue
+				}
+				var callee *ssa.Function
+				if !c.IsInvoke() {
+					switch cv := c.Value.(type) {
+					case *ssa.Builtin:
+						continue
+					case *ssa.Function:
+						callee = cv
+					case *ssa.MakeClosure:
+						callee, _ = cv.Fn.(*ssa.Function)
+					}
+				}
+				for _, tr := range w.Traces {
+					if tr.matches(w, callee, c) {
+						out[tr.Tag] = true
+					}
+				}
+				if callee != nil && w.inModule(callee) {
+					visit(callee, seen)
+				}
+			}
+		}
+	}
+	visit(fn, map[*ssa.Function]bool{})
+	return out
 }
